@@ -1,5 +1,9 @@
 """C05 — highlights never exceed what was typed (one clause, R05.a)."""
 from . import r_gates as RG
+from . import r_trigram as RT
+from . import r_state as RS
+from . import r_token as RK
+from . import r_rank as RR
 from .common import info
 
 
@@ -25,6 +29,18 @@ def run(ctx):
             if not g.accepts(1):
                 ctx.assumed("R05.a", "tolerance-zero:%s" % g.body.id, where(g.body, g.bi),
                             "tolerance below 1 is stricter than C05 needs (affects C04, not C05)")
-    return info("R05.a: the |qslice - rslice| gate on the path to WordMatch::new_pair is located by data-flow "
+    # first clause: candidates are exactly the records with a positive, freshly counted shared-gram count
+    RT.positivity_filter(ctx, "R05.b")
+    RT.shared_generator(ctx, "R05.b")
+    RT.enumerate_indices(ctx, "R05.b")
+    RT.counters(ctx, "R05.b")
+    RS.reset_before_read(ctx, "R05.b", only_owner="store::trigram_index::TrigramIndex", floor=1)
+    RR.hit_filter(ctx, "R05.c")
+    # "a query that contains a letter or digit" has at least one word: strip/split classes are what their names say
+    RK.class_predicates(ctx, "R05.d")
+    RK.sibling_agreement(ctx, "R05.d", "R05.d", stages_too=False)
+    return info("R05.b: hits can only come from index candidates = enumerate positions whose freshly reset counter is > 0, counted "
+                "over the shared gram generator; R05.c: records without a word match are filtered out; R05.d: NotAlphaNum / split "
+                "classes are the std predicates, so a query with a letter or digit has a word. R05.a: the |qslice - rslice| gate on the path to WordMatch::new_pair is located by data-flow "
                 "(integer abs of a difference of the two loop indices, polarity from which branch still reaches "
                 "new_pair) and must reject a difference of 2. Only this clause of C05 is decided.")
